@@ -352,7 +352,7 @@ theorem SC.commit_map (f : V → W) (sc : SC K B V) (hash prev : B) (writes : Li
 
 /-! ### layers -/
 
-def BC.map (f : V → W) (bc : BC K B V) : BC K B W := ⟨bc.hash, bc.prev, amap (Entry.map f) bc.cache⟩
+def BC.map (f : V → W) (bc : BC K B V) : BC K B W := ⟨bc.hash, bc.prev, amap (Entry.map f) bc.cache, bc.committed⟩
 
 def TC.map (f : V → W) (tc : TC H K B V) : TC H K B W := ⟨tc.main, amap (Entry.map f) tc.cache⟩
 
@@ -390,7 +390,7 @@ theorem BC.get_map (f : V → W) (sc : SC K B V) (bc : BC K B V) (k : K) :
   simp only [alookup_amap]
   cases alookup bc.cache k with
   | some e => simp
-  | none => simp only [Option.map_none]; exact SC.get_map f sc k bc.prev
+  | none => simp only [Option.map_none]; exact SC.get_map f sc k bc.base
 
 theorem BC.commit_map (f : V → W) (sc : SC K B V) (bc : BC K B V) :
     (bc.map f).commit (sc.map f) = ((bc.commit sc).1.map f, (bc.commit sc).2.map f) := by
@@ -415,7 +415,7 @@ theorem Sys.step_map (f : V → W) (s : Sys H K B V) (op : Op H K B V) :
   cases op with
   | blk h a b =>
     simp only [Sys.step, Op.map, Sys.map, Out.map]
-    have : (⟨a, b, []⟩ : BC K B W) = (⟨a, b, []⟩ : BC K B V).map f := rfl
+    have : (⟨a, b, [], false⟩ : BC K B W) = (⟨a, b, [], false⟩ : BC K B V).map f := rfl
     rw [this, aset_amap]
   | bhash h a =>
     simp only [Sys.step, Op.map, Sys.map, alookup_amap]
